@@ -100,7 +100,7 @@ func newJSONSpreaderPipeline() *formattedSpreaderPipeline[*jsonNode] {
 func newYAMLSpreaderPipeline() *formattedSpreaderPipeline[*yamlNode] {
 	return &formattedSpreaderPipeline[*yamlNode]{
 		formattedRoot: func(name string) *yamlNode {
-			return &yamlNode{Name: name}
+			return &yamlNode{Name: yamlName(name)}
 		},
 		encode: func(w io.Writer) func(any) error {
 			return yaml.NewEncoder(w).Encode
